@@ -3,8 +3,16 @@
 The classes are deliberately dumb: parameters `p0..p3` (one per possible feeding component) are typed `Any` so that
 whatever the link machinery hands over reaches the constructor unchanged; `v` is an ordinary configuration value;
 `attr` is an object created in the constructor (so a link "from an attribute" can be checked by identity).
+
+Value alphabet of source attributes (links "from an attribute" must hand over whatever the attribute holds): besides
+`attr` every object has attributes whose value is None / falsy - `attr_none` None, `attr_zero` 0, `attr_empty` "",
+`attr_false` False, `attr_list` a fresh empty list, `attr_fobj` an object whose truth value is False.  Parameters
+`d0..d3` / `dr` / `da, db` / `da..ds` are link targets like `p0..p3` but with the NON-None default "unset", so that
+"the link was not applied" and "the link delivered None" can be told apart.
 """
 from typing import Any, Optional
+
+UNSET = "unset"
 
 LOG = []
 
@@ -49,6 +57,16 @@ class Attr:
         return f"Attr({self.owner},{self.v})"
 
 
+class FalsyAttr(Attr):
+    """An attribute value that is an object with truth value False."""
+
+    def __bool__(self):
+        return False
+
+    def __repr__(self):
+        return f"FalsyAttr({self.owner},{self.v})"
+
+
 class FnResult:
     """What every compute_fn returns: keeps the argument objects so that identity can be checked."""
 
@@ -75,29 +93,35 @@ class Base:
         LOG.append((type(self).__name__, self, kwargs))
         self.received = kwargs
         self.attr = Attr(type(self).__name__, kwargs.get("v"))
+        self.attr_none, self.attr_zero, self.attr_empty, self.attr_false = None, 0, "", False
+        self.attr_list, self.attr_fobj = [], FalsyAttr(type(self).__name__, kwargs.get("v"))
 
     def __repr__(self):
         return f"<{type(self).__name__}>"
 
 
 class K0(Base):
-    def __init__(self, p0: Any = None, p1: Any = None, p2: Any = None, p3: Any = None, v: int = 0):
-        self._log(dict(p0=p0, p1=p1, p2=p2, p3=p3, v=v))
+    def __init__(self, p0: Any = None, p1: Any = None, p2: Any = None, p3: Any = None, v: int = 0,
+                 d0: Any = UNSET, d1: Any = UNSET, d2: Any = UNSET, d3: Any = UNSET):
+        self._log(dict(p0=p0, p1=p1, p2=p2, p3=p3, v=v, d0=d0, d1=d1, d2=d2, d3=d3))
 
 
 class K1(Base):
-    def __init__(self, p0: Any = None, p1: Any = None, p2: Any = None, p3: Any = None, v: int = 0):
-        self._log(dict(p0=p0, p1=p1, p2=p2, p3=p3, v=v))
+    def __init__(self, p0: Any = None, p1: Any = None, p2: Any = None, p3: Any = None, v: int = 0,
+                 d0: Any = UNSET, d1: Any = UNSET, d2: Any = UNSET, d3: Any = UNSET):
+        self._log(dict(p0=p0, p1=p1, p2=p2, p3=p3, v=v, d0=d0, d1=d1, d2=d2, d3=d3))
 
 
 class K2(Base):
-    def __init__(self, p0: Any = None, p1: Any = None, p2: Any = None, p3: Any = None, v: int = 0):
-        self._log(dict(p0=p0, p1=p1, p2=p2, p3=p3, v=v))
+    def __init__(self, p0: Any = None, p1: Any = None, p2: Any = None, p3: Any = None, v: int = 0,
+                 d0: Any = UNSET, d1: Any = UNSET, d2: Any = UNSET, d3: Any = UNSET):
+        self._log(dict(p0=p0, p1=p1, p2=p2, p3=p3, v=v, d0=d0, d1=d1, d2=d2, d3=d3))
 
 
 class K3(Base):
-    def __init__(self, p0: Any = None, p1: Any = None, p2: Any = None, p3: Any = None, v: int = 0):
-        self._log(dict(p0=p0, p1=p1, p2=p2, p3=p3, v=v))
+    def __init__(self, p0: Any = None, p1: Any = None, p2: Any = None, p3: Any = None, v: int = 0,
+                 d0: Any = UNSET, d1: Any = UNSET, d2: Any = UNSET, d3: Any = UNSET):
+        self._log(dict(p0=p0, p1=p1, p2=p2, p3=p3, v=v, d0=d0, d1=d1, d2=d2, d3=d3))
 
 
 # variants whose link-fed parameters are class-typed (the whole-object link then replaces a subclass action)
@@ -121,47 +145,51 @@ class T3(T0):
 
 # three-level hierarchy: class group Root -> class-typed parameter child -> class-typed parameter grandchild
 class Grandchild(Base):
-    def __init__(self, pa: Any = None, pb: Any = None, v: int = 0):
-        self._log(dict(pa=pa, pb=pb, v=v))
+    def __init__(self, pa: Any = None, pb: Any = None, v: int = 0, da: Any = UNSET, db: Any = UNSET):
+        self._log(dict(pa=pa, pb=pb, v=v, da=da, db=db))
 
 
 class Child(Base):
-    def __init__(self, grandchild: Grandchild, pa: Any = None, pb: Any = None, v: int = 0):
-        self._log(dict(grandchild=grandchild, pa=pa, pb=pb, v=v))
+    def __init__(self, grandchild: Grandchild, pa: Any = None, pb: Any = None, v: int = 0, da: Any = UNSET,
+                 db: Any = UNSET):
+        self._log(dict(grandchild=grandchild, pa=pa, pb=pb, v=v, da=da, db=db))
 
 
 class Root(Base):
-    def __init__(self, child: Child, pa: Any = None, pb: Any = None, v: int = 0):
-        self._log(dict(child=child, pa=pa, pb=pb, v=v))
+    def __init__(self, child: Child, pa: Any = None, pb: Any = None, v: int = 0, da: Any = UNSET, db: Any = UNSET):
+        self._log(dict(child=child, pa=pa, pb=pb, v=v, da=da, db=db))
 
 
 class SrcA(Base):
-    def __init__(self, pr: Any = None, v: int = 0):
-        self._log(dict(pr=pr, v=v))
+    def __init__(self, pr: Any = None, v: int = 0, dr: Any = UNSET):
+        self._log(dict(pr=pr, v=v, dr=dr))
 
 
 class SrcB(Base):
-    def __init__(self, pr: Any = None, v: int = 0):
-        self._log(dict(pr=pr, v=v))
+    def __init__(self, pr: Any = None, v: int = 0, dr: Any = UNSET):
+        self._log(dict(pr=pr, v=v, dr=dr))
 
 
 # siblings inside one class-typed argument (links "within" a subclass argument are delegated to its own parser)
 class SibA(Base):
-    def __init__(self, qa: Any = None, qb: Any = None, qc: Any = None, qs: Any = None, v: int = 0):
-        self._log(dict(qa=qa, qb=qb, qc=qc, qs=qs, v=v))
+    def __init__(self, qa: Any = None, qb: Any = None, qc: Any = None, qs: Any = None, v: int = 0,
+                 da: Any = UNSET, db: Any = UNSET, dc: Any = UNSET, ds: Any = UNSET):
+        self._log(dict(qa=qa, qb=qb, qc=qc, qs=qs, v=v, da=da, db=db, dc=dc, ds=ds))
 
 
 class SibB(Base):
-    def __init__(self, qa: Any = None, qb: Any = None, qc: Any = None, qs: Any = None, v: int = 0):
-        self._log(dict(qa=qa, qb=qb, qc=qc, qs=qs, v=v))
+    def __init__(self, qa: Any = None, qb: Any = None, qc: Any = None, qs: Any = None, v: int = 0,
+                 da: Any = UNSET, db: Any = UNSET, dc: Any = UNSET, ds: Any = UNSET):
+        self._log(dict(qa=qa, qb=qb, qc=qc, qs=qs, v=v, da=da, db=db, dc=dc, ds=ds))
 
 
 class SibC(Base):
-    def __init__(self, qa: Any = None, qb: Any = None, qc: Any = None, qs: Any = None, v: int = 0):
-        self._log(dict(qa=qa, qb=qb, qc=qc, qs=qs, v=v))
+    def __init__(self, qa: Any = None, qb: Any = None, qc: Any = None, qs: Any = None, v: int = 0,
+                 da: Any = UNSET, db: Any = UNSET, dc: Any = UNSET, ds: Any = UNSET):
+        self._log(dict(qa=qa, qb=qb, qc=qc, qs=qs, v=v, da=da, db=db, dc=dc, ds=ds))
 
 
 class Holder(Base):
-    def __init__(self, a: SibA, b: SibB, c: SibC, qs: Any = None, v: int = 0):
-        self._log(dict(a=a, b=b, c=c, qs=qs, v=v))
+    def __init__(self, a: SibA, b: SibB, c: SibC, qs: Any = None, v: int = 0, ds: Any = UNSET):
+        self._log(dict(a=a, b=b, c=c, qs=qs, v=v, ds=ds))
         self.a, self.b, self.c = a, b, c
